@@ -13,7 +13,7 @@ from . import common as C
 PID = "C15"
 ODIR = os.path.join(C.VERIF, "oracle", "c15")
 ORACLE = os.path.join(ODIR, "oracle")
-N_QUICK, N_THOROUGH, SHARD = 6000, 120000, 20000
+N_QUICK, N_THOROUGH, SHARD = 15000, 120000, 20000
 
 OBL_V = """From Coq Require Import String List Bool.
 From hagall Require Import Auth GenAuth.
@@ -132,6 +132,9 @@ def run_cases(c15, mode_args, wd, agg):
             agg["_sampled"].add(o[6])
             agg["samples"].append({"label": r["label"], "state": r["state"], "endpoint": r["ep"], "request_seen_by_the_wrapper": r["obs"],
                                    "implementation": list(got), "model": list(exp), "model_reason": o[6]})
+    for fn in ("oracle.in", "oracle.out", "results.jsonl"):
+        try: os.remove(os.path.join(wd, fn))
+        except OSError: pass
     return pv, mm, None
 
 def simplest(items):
@@ -245,8 +248,16 @@ def run(tier, replay):
                 return 0
             print("INTERNAL: replay file has neither cases nor probe nor unchecked (or the harness does not build)"); return 2
 
-        # 1. the real wrappers: directed cases + random cases
+        # 0. committed corpus (deterministic recipes), then 1. the real wrappers: directed cases + random cases
         n = N_THOROUGH if tier == "thorough" else N_QUICK
+        cdir = os.path.join(C.VERIF, "corpus", PID)
+        if h_ok and os.path.isdir(cdir):
+            for fn in sorted(os.listdir(cdir)):
+                if fn.endswith(".json"):
+                    pv, mm, err = run_cases(c15, ["replay", "-in", os.path.join(cdir, fn)], os.path.join(wd, "corpus"), agg)
+                    if err:
+                        print("INTERNAL: corpus %s: %s" % (fn, err)); return 2
+                    pviols += pv; mismatches += mm
         if h_ok:
             done, sidx = 0, 0
             while done < n:
@@ -272,7 +283,7 @@ def run(tier, replay):
 
         # 3. a broken tie widens the search before giving up (10x the random volume)
         if h_ok and not pviols and not probe_pv and (tie_broken or mismatches or probe_diff):
-            for sidx in range(3 if tier == "quick" else 10):
+            for sidx in range(2 if tier == "quick" else 10):
                 pv, mm, err = run_cases(c15, ["gen", "-seed", str(C.seed() * 104729 + 17 + sidx), "-n", str(SHARD)], os.path.join(wd, "gen"), agg)
                 if err:
                     break
@@ -313,6 +324,12 @@ def run(tier, replay):
             rp = C.write_replay(PID, "replay-C15-unchecked.json", body)
             C.violation(PID, rp, no_input=True); violations = 1
 
+        coqchk = None
+        if tier == "thorough" and pinfo["ok"]:
+            rc, out = C.sh(["coqchk", "-silent", "-Q", ".", "hagall", "hagall.Properties.C15"], cwd=C.COQ, timeout=1500)
+            coqchk = "coqchk hagall.Properties.C15: " + ("accepted" if rc == 0 else "FAILED rc=%d %s" % (rc, out[-300:]))
+            if rc != 0:
+                print("INTERNAL: " + coqchk); return 2
         nthm = len(pinfo["theorems"])
         dist = {k: dict(agg[k]) for k in ("by_endpoint", "by_state", "by_class", "by_carriers", "impl_outcome", "model_reason")}
         dist.update({k: agg[k] for k in ("requests", "compared", "clock_ambiguous", "not_delivered", "unsendable", "io_errors")})
@@ -336,6 +353,8 @@ def run(tier, replay):
             "samples": agg["samples"], "distribution": dist, "tie_broken": tie_broken,
             "regenerated_obligations_hold": {k: obl[k] for k in ("handshake", "middleware", "mounts")},
         }
+        if coqchk:
+            cov["coqchk"] = coqchk
         C.write_evidence(PID, tier, cov,
                          ["the secret compared against is the one hds.Client currently holds (SetServerData / registration callback); how the discovery service chooses and transports it is outside the property",
                           "a token that verifies is admitted whoever presents it (bearer semantics); tokens without exp never expire (golang-jwt treats exp as optional)"],
